@@ -74,8 +74,20 @@ def run_discs(c):
     for v in res:
         if abs(mpmath.mpf(v) - ref) > mpmath.mpf(1e-5) * R * R:
             raise Violation("inaccurate: %s gives %r, exact lens area %s" % (what, v, mpmath.nstr(ref, 17)), "accuracy")
+    # the caller moves a centre IN PLACE (as the layout loop does) and asks again: the answer is the one for the new position
+    if c.get("then"):
+        nx, ny = (float(v) for v in c["then"])
+        p2.x, p2.y = nx, ny
+        try:
+            v2 = float(circle_circle_intersection_area(p1, r1, p2, r2))
+        except Exception as e:
+            raise Violation("after moving the second centre in place to (%r, %r): raised %s: %s" % (nx, ny, type(e).__name__, e), "raised")
+        ref2 = lens(x1, y1, r1, nx, ny, r2)
+        if abs(mpmath.mpf(v2) - ref2) > mpmath.mpf(1e-5) * R * R:
+            raise Violation("after moving the second centre in place from (%r, %r) to (%r, %r): %s (radii unchanged) gives %r, exact lens area %s" % (
+                x2, y2, nx, ny, what, v2, mpmath.nstr(ref2, 17)), "stale-after-in-place-move")
     d = math.hypot(x1 - x2, y1 - y2)
-    cls = []
+    cls = ["centre-moved-in-place-then-asked-again"] if c.get("then") else []
     near = False
     for t, name in ((r1 + r2, "ext-tangent"), (abs(r1 - r2), "int-tangent")):
         if t > 0 and abs(d - t) <= 8 * math.ulp(t):
@@ -174,9 +186,13 @@ def discs_s(draw):
             x2 = math.nextafter(x2, math.inf if ulps > 0 else -math.inf)
         else:
             y2 = math.nextafter(y2, math.inf if ulps > 0 else -math.inf)
-    return dict(d=[x1, y1, r1, x2, y2, r2])
+    case = dict(d=[x1, y1, r1, x2, y2, r2])
+    if draw(_i(0, 3)) == 0:
+        f = draw(st.sampled_from([0.0, 0.5, 1.5, 3.0]))
+        case["then"] = [x1 + f * (r1 + r2) * ux, y1 + f * (r1 + r2) * uy]
+    return case
 
 
 def subchecks():
     return [Sub("discs", run_discs, strategy=discs_s(), n_quick=60000, n_thorough=1500000, fuzz_thorough=30000,
-                required=("ext-tangent", "int-tangent", "equal-radii", "concentric", "crossing", "apart", "nested", "chord-through-centre", "distance-squared-underflows", "distance-equals-a-radius"))]
+                required=("ext-tangent", "int-tangent", "equal-radii", "concentric", "crossing", "apart", "nested", "chord-through-centre", "distance-squared-underflows", "distance-equals-a-radius", "centre-moved-in-place-then-asked-again"))]
